@@ -96,6 +96,16 @@ def templates(rnd, u):
     add('replfile-reader2', '%s so dass %s' % (w(88), w(89)), repl_file='r.txt', ml=True, lang='en-GB')
     add('defsfile-writer', '%s \\ydef{x} \\renewcommand{\\ydef}[1]{changed} %s' % (w(90), w(91)), defs_file='d.tex')
     add('defsfile-reader', '%s \\ydef{y} %s' % (w(92), w(93)), defs_file='d.tex')
+    # a file that is read by several calls and re-written in between (LaTeX runs while a server is up): every call
+    # sees the contents the file has at that moment
+    add('filever-writer', '\\LTinput{v.glsdefs} %s \\gls{ylab} %s' % (w(102), w(103)), _files={'v.glsdefs': GLS})
+    add('filever-reader', '\\LTinput{v.glsdefs} %s \\gls{ylab} \\glspl{ylab} %s' % (w(104), w(105)), _files={'v.glsdefs': GLS2})
+    add('filever-writer2', '\\usepackage[poorman]{cleveref}\\YYCleverefInput{v.sed} %s \\cref{ylab} %s' % (w(106), w(107)),
+        pack='*,cleveref', _files={'v.sed': SED})
+    add('filever-reader2', '\\usepackage[poorman]{cleveref}\\YYCleverefInput{v.sed} %s \\cref{ylab} %s' % (w(108), w(109)),
+        pack='*,cleveref', _files={'v.sed': SED2})
+    add('filever-reader3', '\\LTinput{v.tex} %s \\yver{} %s' % (w(110), w(111)), _files={'v.tex': '\\newcommand{\\yver}{versionA}\n'})
+    add('filever-reader4', '\\LTinput{v.tex} %s \\yver{} %s' % (w(112), w(113)), _files={'v.tex': '\\newcommand{\\yver}{versionB}\n'})
     add('unkn-writer', '\\zzunkA %s \\begin{zzenvA} \\zzunkB' % w(73), unkn=True)
     add('unkn-reader', '\\zzunkC %s \\zzunkA' % w(74), unkn=True)
     add('error-writer', '%s $x \\verb|a' % w(75))
@@ -248,6 +258,12 @@ class C17(core.Check):
             os.path.join(d, 'server.stderr'))
 
     @staticmethod
+    def write_files(d, opts):
+        for fn, content in (opts.get('_files') or {}).items():
+            with open(os.path.join(d, fn), 'w', encoding='utf-8') as f:
+                f.write(content)
+
+    @staticmethod
     def lt_calls(d, port):
         """request log of the fake proofreader of one server lifetime: [{argv, text}]"""
         fn = os.path.join(d, 'lt%d.log' % port)
@@ -276,7 +292,8 @@ class C17(core.Check):
     def judge_server(self, case):
         rnd = random.Random(case['s'])
         mlsrv = case['s'] % 2 == 0       # server in multi-language mode: short foreign parts are submitted on their own
-        T = [t for t in templates(rnd, 'q') if (not t[3] or mlsrv) and set(t[2]) <= {'pack', 'lang'}]
+        T = [t for t in templates(rnd, 'q') if (not t[3] or mlsrv) and set(t[2]) <= {'pack', 'lang', '_files'}
+             and not (case['concurrent'] and '_files' in t[2])]
         if mlsrv:
             T.append(('shortpart-writer', 'wq201z \\foreignlanguage{german}{wq202z} wq203z wq204z', {}, True))
             T.append(('shortpart-reader', 'wq205z wq206z wq207z wq208z \\foreignlanguage{german}{wq202z} wq209z', {}, True))
@@ -307,6 +324,7 @@ class C17(core.Check):
                     return dict(ok=True, nt=False, key=None, cnt={'server_not_up': 1}, obs=None,
                                 harness_error='server did not come up')
                 try:
+                    self.write_files(d, opts)
                     base.append(self.post(port, src, 'en-GB', fields[k]))
                 finally:
                     srv.terminate()
@@ -322,7 +340,10 @@ class C17(core.Check):
                     with concurrent.futures.ThreadPoolExecutor(8) as ex:
                         got = list(ex.map(lambda i: (i, self.post(port, items[i][1], 'en-GB', fields[i])), order))
                 else:
-                    got = [(i, self.post(port, items[i][1], 'en-GB', fields[i])) for i in order]
+                    got = []
+                    for i in order:
+                        self.write_files(d, items[i][2])
+                        got.append((i, self.post(port, items[i][1], 'en-GB', fields[i])))
             finally:
                 srv.terminate()
                 srv.wait(timeout=10)
@@ -357,7 +378,7 @@ class C17(core.Check):
     def quotas(self, tier):
         return {'fam_seq': 150, 'calls_in_sequences': 2000, 'baselines': 1000, 'fresh_process_runs': 300, 'server_requests_compared': 30, 'server_proofreader_calls_compared': 30, 'server_requests_with_rule_fields': 10,
                 'server_concurrent_runs': 1, 'tpl_gls': 20, 'tpl_def': 20, 'tpl_cref': 20, 'tpl_pack': 20,
-                'tpl_formulas': 20, 'tpl_babel': 20}
+                'tpl_formulas': 20, 'tpl_babel': 20, 'tpl_filever': 20}
 
 
 CHECK = C17
